@@ -207,7 +207,7 @@ Proof.
   destruct (beq l2 K_rparen).
   - cbn [post]. rewrite fields_weight_snoc. cbn [f_type]. lia.
   - eapply post_weaken; [apply IH; lia|].
-    intros [fs' p'] [H1 H2]. rewrite fields_weight_snoc in H2. cbn [f_type] in H2. lia.
+    intros [fs' p'] [Hr1 Hr2]. rewrite fields_weight_snoc in Hr2. cbn [f_type] in Hr2. lia.
 Qed.
 
 Lemma parse_field_list_post : forall fuel p, rlen p < fuel ->
